@@ -129,7 +129,7 @@ FAMILIES["batch"] = dict(
                 NewSets=S(S(), S("A"), S("A", "B"), S("A", "R")), DeltaSets=S(S("A"), S("B"), S("R")),
                 FilterCat=[F(with_=["A"]), F(with_=["B"], without=["A"]), F(with_=["R"], qtc=["R"]), F(), F(with_=["A"], without=["B"])],
                 RegCat=S()),
-    tiers=dict(quick=dict(MaxHist=4, EmitPct=40), thorough=dict(MaxHist=5, EmitPct=20)),
+    tiers=dict(quick=dict(MaxHist=4, EmitPct=40), thorough=dict(MaxHist=5, EmitPct=8)),
     exec=dict(comps=["A", "B", "R"]),
 )
 EVENTS = ["OnCreateEntity", "OnRemoveEntity", "OnAddComponents", "OnRemoveComponents", "OnSetComponents",
@@ -956,7 +956,7 @@ def unbatch_product(ctx, gens):
         keep = max(1, min(1000, int(1000 * (2000 if quick else 40000) / max(1, g["nseq"]))))
         for cell in ["typed1", "exch8"]:
             sources.append(("seq", g["seqs"], keep, dict(CELLS[cell], comps=FAMILIES["batch"]["exec"]["comps"], probes=2, seed=ctx.seed)))
-    counts = dict(wide=40, rel2=40, rich=40) if quick else dict(wide=500, rel2=500, rich=500)
+    counts = dict(wide=40, rel2=40, rich=40) if quick else dict(wide=300, rel2=300, rich=300)
     sources += driven_sources(ctx, ctx.binpath, ["wide", "rel2", "rich"], counts, "typed1", {})
     sources += driven_sources(ctx, ctx.binpath, ["wide", "rich"], counts, "exch8", {})
     cover = {}
@@ -1425,6 +1425,8 @@ def driven_sources(ctx, binp, names, count, cell, extra):
         p, dt = run([binp, "-drive", str(cnt), "-len", str(dr[ctx.tier]["len"]), "-out", lp, "-cfg", json.dumps(cfg)], 900)
         if p.returncode != 0:
             raise Inconclusive("driver failed:\n" + p.stdout[-1500:])
+        if os.path.exists(lp) and not os.environ.get("VERIF_KEEP"):
+            os.remove(lp)      # only the histories (<log>.seqs) are needed: every variant replays them
         out.append(("seq", lp + ".seqs", 1000, cfg))
     return out
 
